@@ -176,12 +176,18 @@ class Builder:
         for d in descs:
             if self.add(tn, var, sub, foreign, d):
                 kept.append(d)
-        to = tn.total_order()
-        po = tn.partial_order()
+        try:
+            to = tn.total_order()
+            po = tn.partial_order()
+        except Exception as e:  # the implementation must answer, never raise
+            return kept, None, None, "%s: %s" % (type(e).__name__, e)
         num = lambda s: int(s[1:])
-        total = None if to is None else [num(s) for s in to]
-        partial = None if po is None else [(num(a), num(b)) for a, b in po]
-        return kept, total, partial
+        try:
+            total = None if to is None else [num(s) for s in to]
+            partial = None if po is None else [(num(a), num(b)) for a, b in po]
+        except Exception:
+            return kept, None, None, "answer is not made of subtask identifiers: total_order=%r partial_order=%r" % (to, po)
+        return kept, total, partial, None
 
 
 # ---------------------------------------------------------------------------------------------------------------
@@ -254,7 +260,14 @@ def run(ctx):
     nontrivial = set()
 
     def record(which, ids, descs, foreign=()):
-        kept, total, partial = B.network(which, ids, descs, foreign)
+        kept, total, partial, exc = B.network(which, ids, descs, foreign)
+        if exc is not None:
+            dist["impl_exceptions"] = dist.get("impl_exceptions", 0) + 1
+            temporal = [d for d in kept if d[0] != "static"]
+            ctx.fail("impl-exception", "total_order()/partial_order() misbehaved: %s" % exc,
+                     ["c34", "impl-exception", "all-precedences" if all(d[0] == "prec" for d in temporal) else "mixed-constraints"],
+                     {"container": which, "subtasks": list(ids), "constraints": kept, "exception": exc}, True)
+            return
         raw.append({"container": ["TaskNetwork", "HierarchicalProblem.task_network", "Method"][which],
                     "subtasks": list(ids), "constraints": kept, "total_order": total, "partial_order": partial})
         cases.append(g_case(ids, kept, total, partial))
@@ -364,6 +377,7 @@ def run(ctx):
         record(rng.randrange(3), ids, descs, foreign)
 
     bad = ctx.coq_failing(cases, "ok", imports=IMPORTS, preamble=PREAMBLE, shard=2500)
+    shown = 0
     for i in bad:
         c = raw[i]
         why = property_fails(c["subtasks"], c["constraints"], c["total_order"], c["partial_order"])
@@ -374,8 +388,11 @@ def run(ctx):
         if et is not None:
             tags.append("unique-linear-extension")
         tags += ["fails:" + w.split(" ")[0] for w in why]
-        model = ctx.coq_show("(tn_total_order (c_tasks c) (c_cons c), tn_partial_order (c_tasks c) (c_cons c))",
-                             imports=IMPORTS, preamble=PREAMBLE + "Definition c := %s.\n" % cases[i])
+        model = "(not evaluated: only the first 5 failing cases are re-evaluated for the report)"
+        if shown < 5:
+            shown += 1
+            model = ctx.coq_show("(tn_total_order (c_tasks c) (c_cons c), tn_partial_order (c_tasks c) (c_cons c))",
+                                 imports=IMPORTS, preamble=PREAMBLE + "Definition c := %s.\n" % cases[i])
         ctx.fail("corr", "task network ordering: implementation and model disagree (corr:C34:ordering/_build_total_order)"
                  + ("; property fails: " + "; ".join(why) if why else ""), tags,
                  {"case": c, "model": model, "expected_partial_set": sorted(ep) if ep else ep, "expected_total": et,
